@@ -233,7 +233,24 @@ pub const TYPES: &[(&str, usize, usize)] = &[
     ("z8", 0, 1), ("z16", 0, 2), ("z64", 0, 8), ("a8x3", 3, 1), ("a16x3", 6, 2), ("a32x3", 12, 4), ("a8x5", 5, 1),
     ("a64x2", 16, 8), ("le16", 2, 2), ("le32", 4, 4), ("be64", 8, 8),
 ];
-pub const ATOMICS: &[(&str, usize)] = &[("u8", 1), ("u16", 2), ("u32", 4), ("u64", 8), ("i8", 1), ("i16", 2), ("i32", 4), ("i64", 8), ("usize", 8), ("isize", 8)];
+pub const ATOMICS: &[(&str, usize)] = &[("u8", 1), ("u16", 2), ("u32", 4), ("u64", 8), ("i8", 1), ("i16", 2), ("i32", 4), ("i64", 8), ("usize", 8), ("isize", 8), ("w32", 4), ("w64", 8)];
+
+/// user-defined `AtomicAccess` types in the packed wire-struct style: their own alignment is 1, the alignment an
+/// atomic access needs is that of the backing atomic (C06: "refuse misaligned addresses")
+#[derive(Copy, Clone, Default)]
+#[repr(C, packed)]
+pub struct Wire32(pub u32);
+unsafe impl ByteValued for Wire32 {}
+impl From<u32> for Wire32 { fn from(v: u32) -> Self { Wire32(v) } }
+impl From<Wire32> for u32 { fn from(v: Wire32) -> u32 { v.0 } }
+impl vm_memory::AtomicAccess for Wire32 { type A = std::sync::atomic::AtomicU32; }
+#[derive(Copy, Clone, Default)]
+#[repr(C, packed)]
+pub struct Wire64(pub u64);
+unsafe impl ByteValued for Wire64 {}
+impl From<u64> for Wire64 { fn from(v: u64) -> Self { Wire64(v) } }
+impl From<Wire64> for u64 { fn from(v: Wire64) -> u64 { v.0 } }
+impl vm_memory::AtomicAccess for Wire64 { type A = std::sync::atomic::AtomicU64; }
 
 #[macro_export]
 macro_rules! with_ty {
@@ -275,6 +292,8 @@ macro_rules! with_atomic {
             "i64" => { type $T = i64; $body }
             "usize" => { type $T = usize; $body }
             "isize" => { type $T = isize; $body }
+            "w32" => { type $T = $crate::slice::Wire32; $body }
+            "w64" => { type $T = $crate::slice::Wire64; $body }
             _ => panic!("unknown atomic {}", $name),
         }
     };
@@ -491,7 +510,7 @@ impl<B: Flav> SliceWorld<B> {
         self.bmoff = kv.us("bmoff");
         self.exp_dirty.clear();
         self.dead = false;
-        self.bm = if self.page > 0 { Some(Arc::new(AtomicBitmap::new(self.bmoff + self.size, NonZeroUsize::new(self.page).unwrap()))) } else { None };
+        self.bm = if self.page > 0 { Some(Arc::new(crate::bitmap::new_bitmap(self.bmoff + self.size, self.page))) } else { None };
         let dummy = Arc::new(AtomicBitmap::new(0, NonZeroUsize::new(1).unwrap()));
         let b = B::make(self.bm.as_ref().unwrap_or(&dummy), self.bmoff);
         let root = unsafe { VolatileSlice::with_bitmap(self.root as *mut u8, self.size, b, None) };
